@@ -213,6 +213,7 @@ def run(ctx):
     # ---------------- O3: chunk dispatch: each kind -> its decoder, on the chunk's own payload
     import C07
     C07.chunk_count_selection(ctx, 'O3')
+    layout.loop_counts_exact(ctx, spec, 'L1')
     if pf is not None:
         import C10 as _c10
         sws = [s for s in q.switches_on(pf, lambda d: d[0] == 'discr') if 'OldPalette04' in _c10.switch_variants(pf, s).values()]
